@@ -52,6 +52,7 @@ type Ctx struct {
 	noEvidence  bool   // replay runs do not rewrite the evidence file
 	wantWhy     string // replay: the violation class to look for
 	sawWantWhy  bool
+	quiet       bool
 }
 
 func NewCtx(prop, tier string, seed int) (*Ctx, error) {
@@ -124,7 +125,9 @@ func (c *Ctx) Violation(why string, replay interface{}) {
 		c.sawWantWhy = true
 	}
 	if c.noEvidence {
-		fmt.Printf("  still violated: %s\n", why)
+		if !c.quiet {
+			fmt.Printf("  still violated: %s\n", why)
+		}
 		return
 	}
 	if len(c.replayPaths) >= 25 {
